@@ -880,6 +880,10 @@ func (rule *RuleExpression) checkMatrixExpression(expr *String) *ObjectType {
 	if !ok {
 		return NewEmptyObjectType()
 	}
+	// Note: The object is modified below. Copy it not to modify the type of the expression. For
+	// example, 'matrix: ${{ needs.prep.outputs }}' must not remove 'include' from the outputs of
+	// the job 'prep'.
+	matTy = matTy.DeepCopy().(*ObjectType)
 
 	// Consider properties in include section elements since 'include' section adds matrix values
 	incTy, ok := matTy.Props["include"]
